@@ -4,6 +4,7 @@ the trace, and the *pure* behaviour function shared with the reference semantics
 from __future__ import annotations
 
 import asyncio
+import enum
 import contextvars
 import zlib
 
@@ -21,6 +22,13 @@ def _get_missing():
 
 
 MISSING = _Missing()
+
+
+class LabelEnum(str, enum.Enum):
+    """A switch node may return a str-enum member that EQUALS a declared label (and hashes like it)."""
+    L0 = 'L0'
+    L1 = 'L1'
+    L2 = 'L2'
 
 
 class Boom(Exception):
@@ -199,7 +207,10 @@ def behave(node, kwargs, attempt, run):
         if lbi is not None and str(val) in lbi:
             return ('ok', lbi[str(val)])
         labels = plan['labels']
-        return ('ok', labels[sel(sorted(kwargs.items()), len(labels))])
+        lab = labels[sel(sorted(kwargs.items()), len(labels))]
+        if plan.get('label_enum') and lab in ('L0', 'L1', 'L2'):
+            lab = LabelEnum(lab)
+        return ('ok', lab)
     if kind == 'dest' and 'iter_by_attempt' in plan:
         # nested (inner) recurrent destination: its start node ignores additional_data, so every inner
         # iteration has identical arguments; it asks for another iteration until it has been invoked
